@@ -70,6 +70,62 @@ def twins(fn):
             break
 
 
+def more_twins(fn):
+    # (L) a logging line at the top
+    c = copy.deepcopy(fn)
+    first = 1 if c.body and isinstance(c.body[0], ast.Expr) and isinstance(c.body[0].value, ast.Constant) else 0
+    c.body.insert(first, ast.parse("LOGGER.debug('entering')").body[0])
+    yield 'L insert a logging call', ast.fix_missing_locations(c)
+    # (I) swap two adjacent independent simple assignments
+    for i, n in enumerate(list(ast.walk(fn))):
+        done = False
+        for field in ('body', 'orelse', 'finalbody'):
+            seq = getattr(n, field, None)
+            if not isinstance(seq, list):
+                continue
+            for k in range(len(seq) - 1):
+                a, b = seq[k], seq[k + 1]
+                if all(isinstance(x, ast.Assign) and len(x.targets) == 1 and isinstance(x.targets[0], ast.Name) for x in (a, b)):
+                    na, nb = a.targets[0].id, b.targets[0].id
+                    ra = {x.id for x in ast.walk(a.value) if isinstance(x, ast.Name)}
+                    rb = {x.id for x in ast.walk(b.value) if isinstance(x, ast.Name)}
+                    pure = not any(isinstance(x, (ast.Call, ast.Await, ast.Yield)) for v in (a.value, b.value) for x in ast.walk(v))
+                    if na != nb and na not in rb and nb not in ra and pure:
+                        c = copy.deepcopy(fn)
+                        m = list(ast.walk(c))[i]
+                        s2 = getattr(m, field)
+                        s2[k], s2[k + 1] = s2[k + 1], s2[k]
+                        yield f'I L{a.lineno} swap independent assignments', c
+                        done = True
+                        break
+            if done:
+                break
+        if done:
+            break
+    # (E) if c: return A / return B  ->  if c: return A else: return B
+    for i, n in enumerate(list(ast.walk(fn))):
+        done = False
+        for field in ('body', 'orelse', 'finalbody'):
+            seq = getattr(n, field, None)
+            if not isinstance(seq, list):
+                continue
+            for k in range(len(seq) - 1):
+                a, b = seq[k], seq[k + 1]
+                if isinstance(a, ast.If) and not a.orelse and a.body and isinstance(a.body[-1], ast.Return) and isinstance(b, ast.Return) and k + 2 == len(seq):
+                    c = copy.deepcopy(fn)
+                    m = list(ast.walk(c))[i]
+                    s2 = getattr(m, field)
+                    s2[k].orelse = [s2[k + 1]]
+                    del s2[k + 1]
+                    yield f'E L{a.lineno} trailing return moved into else', ast.fix_missing_locations(c)
+                    done = True
+                    break
+            if done:
+                break
+        if done:
+            break
+
+
 def run_one(args):
     props, relpath, qual, desc, new_src = args
     try:
@@ -99,6 +155,9 @@ def run_one(args):
         shutil.rmtree(root, ignore_errors=True)
 
 
+MODES = set((os.environ.get('TWIN_MODES') or 'basic,more').split(','))
+
+
 def main():
     only = sys.argv[1] if len(sys.argv) > 1 else ''
     owners = {}
@@ -114,7 +173,8 @@ def main():
             continue
         fn = prog.func(ref)
         lines = fn.module.source.split('\n')
-        for desc, tw in twins(fn.node):
+        import itertools
+        for desc, tw in itertools.chain(twins(fn.node) if 'basic' in MODES else [], more_twins(fn.node) if 'more' in MODES else []):
             s0, s1 = fn.node.lineno - 1, fn.node.end_lineno
             if fn.node.decorator_list:
                 s0 = min(d.lineno for d in fn.node.decorator_list) - 1
